@@ -70,7 +70,9 @@ async fn filter(cases: &str, base: &str) {
 		std::fs::create_dir_all(&origin).unwrap();
 		let mut files = Vec::new();
 		for (i, f) in case["files"].as_array().unwrap().iter().enumerate() {
-			let p = root.join(format!("ignf{i}"));
+			// file names whose alphabetical order differs from the listed order (the listed order is the precedence)
+			const NAMES: [&str; 10] = ["m", "c", "x", "a", "k", "e", "z", "b", "y", "d"];
+			let p = root.join(format!("{}{}_ign", NAMES[i % 10], i / 10));
 			std::fs::write(&p, strs(&f["lines"]).join("\n") + "\n").unwrap();
 			files.push(IgnoreFile {
 				path: p,
